@@ -117,7 +117,7 @@ class Gen:
         if self.r.random() < c["p_ctx_fault"]:
             k = self.r.choice([1, 1, 2, 3])
             fault = {self.r.choice(["resume", "pause"]): [k, self.ferr()]}
-            if c["p_sticky"] > 0 and self.r.random() < c["p_sticky"]:
+            if c["p_sticky"] > 0 and "pause" in fault and self.r.random() < c["p_sticky"]:   # sticky RESUME faults: corpus only (see DESIGN 0.4, open observation)
                 fault["sticky"] = True
         if fault is None and c["p_exit_fault"] > 0 and self.r.random() < c["p_exit_fault"]:
             fault = {"exit": self.ferr()}
